@@ -8,7 +8,8 @@ import monitors
 
 
 # ------------------------------------------------------------------ rewards
-REWARD_MODES = ["dyadic", "dyadic", "negative", "zero", "const", "few", "alt", "large", "objective", "objective", "zeromax"]
+REWARD_MODES = ["dyadic", "dyadic", "negative", "zero", "const", "few", "alt", "large", "objective", "objective", "zeromax",
+                "offset", "near"]
 
 
 def make_reward_fn(rnd, mode, box):
@@ -17,6 +18,8 @@ def make_reward_fn(rnd, mode, box):
     scale = [max(hi - lo, 1e-12) for lo, hi in box]
     const = rnd.choice([0.25, -0.5, 1.0, 3.0])
     few = rnd.choice([[0.0, 1.0], [-1.0, -0.5], [0.25, 0.5, 0.75], [0.5]])
+    offset = rnd.choice([1e10, -1e12, 1e8, -3e9])
+    near = rnd.choice([1.0, -2.0, 0.75, 1e5])
 
     def fn(t, pt):
         if mode == "dyadic":
@@ -35,8 +38,12 @@ def make_reward_fn(rnd, mode, box):
             return (1 if t % 2 else -1) * rnd.randint(0, 64) / 64.0
         if mode == "large":
             return rnd.choice([1e6, -1e6, 12345.5, -3e5]) * rnd.randint(1, 8)
+        if mode == "near":           # distinct values that agree to 10..14 digits (and exact ties)
+            return near * (1.0 + rnd.choice([0, 0, 1, -1, 2, -3, 5]) * 2.0 ** -rnd.choice([36, 40, 44]))
         # objective + dyadic noise (objective itself is not dyadic)
         v = -sum(abs((p - x) / s) for p, x, s in zip(pt, xstar, scale)) / d
+        if mode == "offset":         # an un-normalised objective: large constant level, variation of order one
+            return offset + v
         return v + rnd.randint(-64, 64) / 1024.0
     return fn
 
@@ -221,7 +228,7 @@ class SOOAd(Adapter):
         return "depth cap smaller than the number of rounds" if meta["params"]["h_max"] < meta["T"] else None
 
     def gen_params(self, rnd, T):
-        return {"n": rnd.choice([T, 100, 1000]), "h_max": rnd.choice([100, 100, 1000, T, 3, 5, 8])}
+        return {"n": rnd.choice([T, 100, 1000]), "h_max": rnd.choice([100, 100, 1000, 1000, T, T + 1, 5])}
 
     def construct(self, p, box, pcls):
         from PyXAB.algos.SOO import SOO
@@ -241,12 +248,22 @@ class DOOAd(Adapter):
 
     @staticmethod
     def tab(p):
+        k = p.get("delta_kind", "geom")
+        if k == "lin0":        # a user bound that reaches exactly 0 at some depth and stays there
+            return [max(0.0, p["delta_c"] - p["delta_g"] * h) for h in range(300)]
+        if k == "zero":        # purely greedy
+            return [0.0 for h in range(300)]
+        if k == "const":
+            return [p["delta_c"] for h in range(300)]
         return [p["delta_c"] * p["delta_g"] ** h for h in range(300)]
 
     def gen_params(self, rnd, T):
         p = {"n": rnd.choice([T, 100])}
-        if rnd.random() < 0.4:
+        if rnd.random() < 0.5:
             p["delta_c"], p["delta_g"] = rnd.choice([1.0, 0.5, 4.0]), rnd.choice([0.5, 0.25, 0.75])
+            k = rnd.choice(["geom", "geom", "geom", "lin0", "lin0", "zero", "const"])
+            if k != "geom":
+                p["delta_kind"] = k
         return p
 
     def construct(self, p, box, pcls):
@@ -282,7 +299,7 @@ class StoSOOAd(Adapter):
         return "depth cap smaller than the number of rounds" if meta["params"]["h_max"] < meta["T"] else None
 
     def gen_params(self, rnd, T):
-        p = {"n": rnd.choice([T, T, 2 * T, 1000]), "h_max": rnd.choice([100, 100, 1000, 4, 6, 2, 3])}
+        p = {"n": rnd.choice([T, T, 2 * T, 1000]), "h_max": rnd.choice([100, 100, 1000, 1000, max(T, 7), 4, 3])}
         if rnd.random() < 0.5 or p["h_max"] <= 6:
             p["k"] = rnd.choice([1, 1, 2, 3, 5])
         if rnd.random() < 0.3:
@@ -581,7 +598,9 @@ class VROOMAd(Adapter):
     def gen_params(self, rnd, T):
         T = min(T, 150)
         n = rnd.choice([T, T, 2 * T, 100, 64, 128, 20, 33])
-        return {"n": n, "h_max": rnd.choice([3, 5, 8, 8, 12, 16, 25, 1000 if n <= 33 else 10]), "b": rnd.choice([1.0, 0.5, 2.0]),
+        # the library's default cap is 100: with a smaller budget the constructor bounds the tree by n instead
+        big = 1000 if n <= 33 else (100 if n < 100 else 10)
+        return {"n": n, "h_max": rnd.choice([3, 5, 8, 8, 12, 16, 25, big, big]), "b": rnd.choice([1.0, 0.5, 2.0]),
                 "f_max": rnd.choice([1.0, 2.0, 10.0])}
 
     def construct(self, p, box, pcls):
@@ -722,7 +741,12 @@ def gen_algo_case(seed, idx, algo=None, force=None, monitors_on=True, T=None, ho
     else:
         tchoices = [20, 40, 60, 100, 150]
     T = T or force.get("T") or rnd.choice(tchoices)
-    rmode = force.get("rmode") or rnd.choice(REWARD_MODES)
+    # reward regimes are stratified over the case index (every regime is met by every algorithm once the per-algorithm
+    # budget reaches len(REWARD_MODES)); the starting point of the rotation depends on the seed and the algorithm
+    _modes = sorted(set(REWARD_MODES)) + ["dyadic", "objective"]
+    random.Random(f"modes-{seed}-{algo}").shuffle(_modes)
+    _rm = rnd.choice(REWARD_MODES)       # (drawn in any case: keeps the configuration stream independent of the rotation)
+    rmode = force.get("rmode") or (_modes[idx % len(_modes)] if idx < 10 ** 5 else _rm)
     qmode = force.get("qmode") or rnd.choice(["mixed", "dyadic", "random", "end", "half"])
     params = force.get("params") or ad.gen_params(rnd, T)
     if not force.get("params") and hasattr(ad, "defaults") and rnd.random() < 0.3:
@@ -730,6 +754,8 @@ def gen_algo_case(seed, idx, algo=None, force=None, monitors_on=True, T=None, ho
         case_defaults = True
     else:
         case_defaults = False
+    if force.get("base") and "base" in params and not force.get("params"):
+        params["base"] = force["base"]         # wrappers: the base learner is stratified by the caller
     if hasattr(ad, "fix_T") and not force.get("T"):
         T = ad.fix_T(params, T)
     t0 = force.get("t0", rnd.choice([1, 1, 0, 17]) if not getattr(ad, "time_sensitive", False) else 1)
@@ -770,13 +796,16 @@ def gen_algo_case(seed, idx, algo=None, force=None, monitors_on=True, T=None, ho
     if force.get("query_rounds") is not None:
         query_rounds = set(force["query_rounds"])
     else:
-        query_rounds = set(qrnd.sample(range(T), min(n_queries, T))) if ad.name in ("T_HOO", "HCT", "VHCT", "Zooming", "POO") else set()
+        # a query between two rounds is "get_last_point after the loop" of the rounds played so far (C01); for the
+        # algorithms outside C15's list it may change the rest of the run, which the model follows (A.last is an op)
+        QRY = ("T_HOO", "HCT", "VHCT", "Zooming", "POO", "SOO", "DOO", "StoSOO", "SequOOL", "VROOM")
+        query_rounds = set(qrnd.sample(range(T), min(n_queries, T))) if ad.name in QRY else set()
     labels = force.get("labels")
     MID = ("VROOM", "SOO", "DOO", "SequOOL", "StoSOO", "T_HOO", "HCT", "VHCT", "POO")
     if force.get("mid_queries") is not None:
         mid_queries = set(force["mid_queries"])
     else:
-        mid_queries = set(qrnd.sample(range(T), min(T, 3))) if (ad.name in MID and qrnd.random() < 0.15) else set()
+        mid_queries = set(qrnd.sample(range(T), min(T, qrnd.choice([3, 3, 8])))) if (ad.name in MID and qrnd.random() < 0.4) else set()
     if ad.name in ("POO", "GPO", "PCT", "VPCT"):
         import copy as _copy
         ad = _copy.copy(ad)      # adapters of wrappers keep per-case state
@@ -823,6 +852,8 @@ def gen_algo_case(seed, idx, algo=None, force=None, monitors_on=True, T=None, ho
                     q = guarded(a.get_last_point)
                     case.op(ad.last_line(glog[mark:], rng.log[rmark:], a, ctx), ad.pt_str(a, parts(), q))
                     case.tags["op=query"] += 1
+                    if monitors_on and i > 0:
+                        monitors.c01_point(case, box, q, i, ad.name, what="get_last_point")
                 except Exception as e:
                     case.op(ad.last_line(glog[mark:], rng.log[rmark:], a, ctx), "ERR " + exc_name(e))
                     case.fail("C01", "get_last_point-exception", f"{type(e).__name__}: {e}", step=i, algo=ad.name, exc=type(e).__name__,
@@ -870,9 +901,9 @@ def gen_algo_case(seed, idx, algo=None, force=None, monitors_on=True, T=None, ho
                     q = guarded(a.get_last_point)
                     case.op(ad.last_line(glog[mark:], rng.log[rmark:], a, ctx), ad.pt_str(a, parts(), q))
                     case.tags["op=mid-round-query"] += 1
-                    if ad.name == "VROOM":
-                        pass
                 except Exception as e:
+                    # C01 speaks of the recommendation after a loop of complete rounds: a query in the middle of a round
+                    # is compared with the model (the ERR token) but is not a C01 failure
                     case.op(ad.last_line(glog[mark:], rng.log[rmark:], a, ctx), "ERR " + exc_name(e))
             r = float(reward_fn(i, pt))
             ctx["rewards"].append(r)
